@@ -156,6 +156,7 @@ func RunC11(ep *core.Episode) {
 		rq        *c11req
 		resp      *wire.Msg
 		interim   bool
+		srvClose  bool
 		respBytes []byte
 	}
 	var exs []*exch
@@ -186,8 +187,8 @@ func RunC11(ep *core.Episode) {
 				served++
 				peer.A.In.Boundaries = nil
 				peer.B.Send(ex.respBytes, 0)
-				if ex.resp.NoFraming && ex.resp.Status != 204 && ex.resp.Status != 304 && ex.rq.method != "HEAD" {
-					peer.B.Close() // close-delimited
+				if ex.srvClose || (ex.resp.NoFraming && ex.resp.Status != 204 && ex.resp.Status != 304 && ex.rq.method != "HEAD") {
+					peer.B.Close() // close-delimited, or the server announced Connection: close
 				}
 			}})
 		}))
@@ -200,7 +201,7 @@ func RunC11(ep *core.Episode) {
 			ex := &exch{rq: rq}
 			closeDelim := false
 			if !e2e {
-				ex.resp, ex.interim = genC11Resp(tp, ep, i, rq.method, i == n-1)
+				ex.resp, ex.interim, ex.srvClose = genC11Resp(tp, ep, i, rq.method, i == n-1, true)
 				closeDelim = ex.resp.NoFraming && ex.resp.Status == 200 && rq.method != "HEAD"
 				b, _ := ex.resp.Encode()
 				if ex.interim {
@@ -234,7 +235,7 @@ func RunC11(ep *core.Episode) {
 				rq.checkHertz(ep, i, echo.Seen[i])
 			} else {
 				checkC11Resp(ep, i, rq, ex.resp, resp, err, streamMode, limit)
-				if closeDelim {
+				if closeDelim || ex.srvClose {
 					// the server closed: the next exchange needs a new connection
 					peer = nil
 				}
@@ -583,7 +584,9 @@ func (r *c11req) checkHertz(ep *core.Episode, i int, o *Obs) {
 	r.checkHeadersBody(ep, "C11.request-hertz", i, hs, o.Body)
 }
 
-func genC11Resp(tp *core.Tape, ep *core.Episode, i int, method string, last bool) (*wire.Msg, bool) {
+// ext: also draw the later additions (unannounced trailers, framing-name spelling, server-initiated close);
+// C02 reuses the generator without them so that its recorded tapes keep their meaning.
+func genC11Resp(tp *core.Tape, ep *core.Episode, i int, method string, last, ext bool) (*wire.Msg, bool, bool) {
 	m := &wire.Msg{Proto: "HTTP/1.1", Status: 200, Reason: "OK"}
 	kind := tp.Weighted("rkind", []int{4, 4, 2, 1})
 	size := []int{0, 1, 299, 300, 301, 4095, 4096, 4097, 8192, 8193, 30000}[tp.Choose("rsz", 11)]
@@ -605,7 +608,11 @@ func genC11Resp(tp *core.Tape, ep *core.Episode, i int, method string, last bool
 		m.ChunkSizes = splitChunks(tp, size)
 		m.HexUpper = tp.Choose("hexup", 2) == 1
 		if tp.Chance("rtrail", 1, 3) {
-			m.Headers = append(m.Headers, wire.Header{K: "Trailer", V: "X-Trail"})
+			if !ext || tp.Choose("announced", 2) == 0 {
+				m.Headers = append(m.Headers, wire.Header{K: "Trailer", V: "X-Trail"})
+			} else {
+				ep.Probe("resp-trailers-unannounced") // announcing trailer fields is a SHOULD
+			}
 			m.Trailers = []wire.Header{{K: "X-Trail", V: fmt.Sprintf("t%d", i)}}
 			ep.Probe("resp-trailers")
 		}
@@ -644,7 +651,26 @@ func genC11Resp(tp *core.Tape, ep *core.Episode, i int, method string, last bool
 	if interim {
 		ep.Probe("resp-100-continue")
 	}
-	return m, interim
+	// spelling of the framing field names (field names are case-insensitive)
+	if ext && tp.Chance("framecase", 1, 3) {
+		k := tp.Choose("framecasek", 3)
+		m.CLName = []string{"content-length", "CONTENT-LENGTH", "Content-length"}[k]
+		m.TEName = []string{"transfer-encoding", "TRANSFER-ENCODING", "Transfer-encoding"}[k]
+		for j := range m.Headers {
+			if m.Headers[j].K == "Content-Length" {
+				m.Headers[j].K = m.CLName
+			}
+		}
+		ep.Probe("resp-framing-name-case")
+	}
+	// the server announces that it closes the connection after this (framed) response, and does
+	srvClose := false
+	if !last && !(m.NoFraming && m.Status == 200 && method != "HEAD") && ext && tp.Chance("srvclose", 1, 6) {
+		srvClose = true
+		m.Headers = append(m.Headers, wire.Header{K: "Connection", V: "close"})
+		ep.Probe("resp-connection-close")
+	}
+	return m, interim, srvClose
 }
 
 func checkC11Resp(ep *core.Episode, i int, rq *c11req, want *wire.Msg, resp *protocol.Response, err error, streamMode bool, limit int) {
@@ -690,7 +716,7 @@ func checkC11Resp(ep *core.Episode, i int, rq *c11req, want *wire.Msg, resp *pro
 	var wantH, gotH []string
 	for _, h := range want.Headers {
 		switch strings.ToLower(h.K) {
-		case "content-length", "transfer-encoding", "trailer":
+		case "content-length", "transfer-encoding", "trailer", "connection":
 			continue
 		}
 		wantH = append(wantH, strings.ToLower(h.K)+": "+h.V)
@@ -713,6 +739,11 @@ func checkC11Resp(ep *core.Episode, i int, rq *c11req, want *wire.Msg, resp *pro
 	var wantT []string
 	for _, t := range want.Trailers {
 		wantT = append(wantT, strings.ToLower(t.K)+": "+t.V)
+	}
+	if _, announced := want.Get("Trailer"); !announced && len(gotT) == 0 {
+		// hertz keeps only the trailer fields a Trailer header announced; what matters for the
+		// unannounced ones is that they are consumed (the next exchange on the connection decodes)
+		return
 	}
 	if strings.Join(wantT, "|") != strings.Join(gotT, "|") {
 		ep.Fail("C11.response", "exchange %d: trailers %v, server sent %v", i, gotT, wantT)
